@@ -71,12 +71,14 @@ def _real_type(t):
 
 
 def sym_isinstance(x, t):
+    import numbers
+
     ts = t if isinstance(t, tuple) else (t,)
     ts = tuple(_real_type(tt) for tt in ts)
     if isinstance(x, core.SInt):
-        return any(tt is builtins.int or tt is object for tt in ts)
+        return any(tt is builtins.int or tt is object or tt in (numbers.Integral, numbers.Rational, numbers.Real, numbers.Complex, numbers.Number) for tt in ts)
     if isinstance(x, core.SFloat):
-        return any(tt is builtins.float or tt is object for tt in ts)
+        return any(tt is builtins.float or tt is object or tt in (numbers.Real, numbers.Complex, numbers.Number) for tt in ts)
     if isinstance(x, core.SBool):
         return any(tt is builtins.bool or tt is builtins.int or tt is object for tt in ts)
     return isinstance(x, ts)
